@@ -1076,7 +1076,7 @@ func entryOps(c *hx.Ctx) {
 func Run(c *hx.Ctx) {
 	entryOps(c)
 	byteOps(c)
-	c.Rep.Rule = "revision histories (add/replace/delete per object per revision; values integers, dictionaries and arrays that hold references to other objects, nested containers, dangling references; classic or stream xref per revision; object-stream membership; indirect /Length; W widths; predictors) rendered by the harness PDF writer, then lookup sequences over GetObject, Resolve, ResolveDeep (of a reference and of a looked-up container) and the resolver package's deep lookups, with repeats and ClearCache, every answer also compared with the same lookup alone on a fresh reader; exhaustive for n=2 objects x r<=2 (thorough: r<=3) revisions x both xref kinds; non-trivial = at least one lookup expected to succeed; distinct by (history, ops)"
+	c.Rep.Rule = "revision histories (add/replace/delete per object per revision; values integers, dictionaries and arrays that hold references to other objects, nested containers, dangling references; classic or stream xref per revision; object-stream membership; indirect /Length; W widths; predictors) rendered by the harness PDF writer, then lookup sequences over GetObject, Resolve, ResolveDeep (of a reference and of a looked-up container) and the resolver package's deep lookups, with repeats and ClearCache, every answer also compared with the same lookup alone on a fresh reader; exhaustive for n=2 objects x r<=2 (thorough: r<=3) revisions x both xref kinds; non-trivial = at least one lookup expected to succeed; distinct by (history, ops); at the bounds of the C02 repairs (bounds.go): chain files in which 1,2,3,14,15,16,17,18,40,300 (thorough 1000, 5000) objects are loaded inside each other through indirect /Length (limit 16), every object alone on a fresh reader and in lookup sequences with cache clears; object streams with header offsets, /N and /First at len-1/len/len+1/2^31/2^62/2^63-1, every index asked twice; deep resolution of reference chains around 49/50 and 1000/1001 objects, shared graphs of 2^40 paths, page/parent cycles"
 	exhaustive(c, 2, 1)
 	exhaustive(c, 2, 2)
 	if c.Thorough() {
@@ -1121,6 +1121,9 @@ func Run(c *hx.Ctx) {
 }
 
 func Replay(c *hx.Ctx, m map[string]interface{}) {
+	if replayBounds(c, m) {
+		return
+	}
 	var k kase
 	hx.Remarshal(m, &k)
 	runCase(c, k, "replay")
